@@ -69,6 +69,11 @@ class Cloner:
                 are referenced in the cloned graph.
         """
         self._value_map = value_map
+        # Outputs of nodes of the graphs being cloned that have not been cloned yet, and the
+        # inputs of cloned nodes waiting for them: graphs are not required to be sorted, so a
+        # node can come before the producer of one of its inputs.
+        self._pending_values: set[_core.Value] = set()
+        self._forward_references: list[tuple[_core.Node, int, _core.Value]] = []
         self._attr_map = attr_map
         self._metadata_props = metadata_props
         self._post_process = post_process
@@ -162,12 +167,18 @@ class Cloner:
     @_capture_error_context
     def clone_node(self, node: _core.Node, deep_copy: bool = False) -> _core.Node:
         new_inputs: list[_core.Value | None] = []
+        forward_inputs: list[tuple[int, _core.Value]] = []
         for input in node.inputs:
             if input is None:
                 new_inputs.append(input)
+            elif input not in self._value_map and input in self._pending_values:
+                # Produced by a node that comes later in a graph being cloned (the graph is
+                # not topologically sorted): connected once that node has been cloned.
+                forward_inputs.append((len(new_inputs), input))
+                new_inputs.append(None)
             elif input not in self._value_map:
                 # If the node input cannot be found in the value map, it must be an outer-scope
-                # value, given that the nodes are sorted topologically.
+                # value.
                 if not self._allow_outer_scope_values:
                     graph_name = (
                         input.graph.name or "<anonymous>" if input.graph else "<unknown>"
@@ -206,6 +217,8 @@ class Cloner:
         )
         if node.meta:
             self.clone_meta(node.meta, new_node.meta, deep_copy=deep_copy)
+        for index, value in forward_inputs:
+            self._forward_references.append((new_node, index, value))
 
         # Copy output properties
         for output, new_output in zip(node.outputs, new_node.outputs):
@@ -271,7 +284,23 @@ class Cloner:
             self._clone_or_get_value(v, deep_copy=deep_copy)
             for v in graph.initializers.values()
         ]
-        nodes = [self.clone_node(node, deep_copy=deep_copy) for node in graph]
+        own_outputs = [output for node in graph for output in node.outputs]
+        self._pending_values.update(own_outputs)
+        try:
+            nodes = [self.clone_node(node, deep_copy=deep_copy) for node in graph]
+        finally:
+            self._pending_values.difference_update(own_outputs)
+        # Connect the inputs that referred to nodes further down in the node list
+        unresolved = []
+        for new_node, index, value in self._forward_references:
+            if value in self._value_map:
+                new_node.replace_input_with(index, self._get_value(value))
+                new_node.device_configurations = self._remap_device_configurations(
+                    new_node.device_configurations
+                )
+            else:
+                unresolved.append((new_node, index, value))
+        self._forward_references = unresolved
         # Looks up already cloned values. Here we know graph outputs will not be None
         output_values = typing.cast(
             list["_core.Value"], [self._get_value(v) for v in graph.outputs]
